@@ -371,6 +371,18 @@ fn inject(rng: &mut Rng, src: &str) -> Vec<(&'static str, String, u32, u8)> {
             1 => format!("<view class=\"w\">{}</view>", piece),
             2 => format!("<block wx:if=\"{{{{ a }}}}\">{}</block>", piece),
             3 => format!("<view wx:for=\"{{{{ l }}}}\"><text>t</text>{}</view>", piece),
+            4 => {
+                // after a long stretch of legal but remark-producing markup (more than a hundred Note-level diagnostics)
+                let mut noisy = String::new();
+                for r in 0..6 {
+                    noisy.push_str("<view");
+                    for k in 0..12 {
+                        noisy.push_str(&format!(" a{}{} = \"{}\"", r, k, k));
+                    }
+                    noisy.push_str("/>\n");
+                }
+                format!("{}{}", noisy, piece)
+            }
             5 => format!("<!-- multi\nline \u{1f600}\u{1f600} -->{}", piece),
             6 => format!("<wxs module=\"zz8\">var a = 1\n// \u{1f600}</wxs>{}", piece),
             _ => format!("<view>\n  汉\u{1f600}\n  {}\n</view>", piece),
@@ -404,10 +416,18 @@ fn inject(rng: &mut Rng, src: &str) -> Vec<(&'static str, String, u32, u8)> {
     v.push(("duplicated attribute", insert_at(rng, "<view hidden=\"1\" hidden=\"2\"/>"), code(K::DuplicatedAttribute), 2));
     v.push(("duplicated id", insert_at(rng, "<view id=\"a\" id=\"b\"/>"), code(K::DuplicatedAttribute), 2));
     v.push(("duplicated wx:if", insert_at(rng, "<view wx:if=\"{{a}}\" wx:if=\"{{b}}\"/>"), code(K::DuplicatedAttribute), 2));
-    v.push(("children under include", insert_at(rng, "<include src=\"x\"><view/></include>"), code(K::ChildNodesNotAllowed), 3));
-    v.push(("children under import", insert_at(rng, "<import src=\"x\"><view/></import>"), code(K::ChildNodesNotAllowed), 3));
-    v.push(("children under slot", insert_at(rng, "<slot><view/></slot>"), code(K::ChildNodesNotAllowed), 3));
-    v.push(("children under template is", insert_at(rng, "<template is=\"x\"><view/></template>"), code(K::ChildNodesNotAllowed), 3));
+    // the forbidden children in several shapes: an element, text, a binding, white space first, a comment first
+    let kids = |rng: &mut Rng| -> &'static str {
+        *rng.pick(&["<view/>", "text", "{{ a }}", "\n  <view/>\n", "<!-- note --><view/>", "<!-- note -->text", "<!-- a --><!-- b --><text>t</text>", "<view/><!-- after -->"])
+    };
+    let k = kids(rng);
+    v.push(("children under include", insert_at(rng, &format!("<include src=\"x\">{}</include>", k)), code(K::ChildNodesNotAllowed), 3));
+    let k = kids(rng);
+    v.push(("children under import", insert_at(rng, &format!("<import src=\"x\">{}</import>", k)), code(K::ChildNodesNotAllowed), 3));
+    let k = kids(rng);
+    v.push(("children under slot", insert_at(rng, &format!("<slot>{}</slot>", k)), code(K::ChildNodesNotAllowed), 3));
+    let k = kids(rng);
+    v.push(("children under template is", insert_at(rng, &format!("<template is=\"x\">{}</template>", k)), code(K::ChildNodesNotAllowed), 3));
     v.push(("content in wxs with src", insert_at(rng, "<wxs module=\"zz9\" src=\"x\">var a</wxs>"), code(K::ChildNodesNotAllowed), 3));
     v.push(("include without src", insert_at(rng, "<include/>"), code(K::MissingSourcePath), 3));
     v.push(("import without src", insert_at(rng, "<import/>"), code(K::MissingSourcePath), 3));
